@@ -960,6 +960,15 @@ int c15_pfc_long_case(struct vf_rng *r, long idx)
 				int q;
 				for (q = 0; q < b->size; q++) b->data[q] = c15_ham84(vf_chance(r, 1, 2) ? 0xC : vf_chance(r, 1, 2) ? 3 : vf_below(r, 16));
 			}
+			{       /* application ids repeat every 32 blocks: no two blocks with the same id may look alike, or a
+				   delivery could not be attributed (1 byte blocks: 1 in 256 would) */
+				int q, again;
+				do {
+					again = 0;
+					for (q = i - 32; q >= 0 && b->size > 0; q -= 32)
+						if (blk[q].size == b->size && !memcmp(blk[q].data, b->data, (size_t)b->size)) { b->data[0] = (uint8_t)(b->data[0] + 1); again = 1; }
+				} while (again);
+			}
 			lay_block(i);
 			tot_cbf += b->cbf;
 		}
